@@ -50,7 +50,7 @@ pub fn gen_explorer(seed: u64) -> ExplorerScenario {
     let mut rng = Rng::new(seed);
     let o = GenOpts {
         max_states: 30,
-        shapes: vec!["general", "dag", "forest", "fan"],
+        shapes: vec!["general", "dag", "forest", "forest", "fan"],
         min_props: 0,
         max_props: 3,
         kinds: vec![Kind::Always, Kind::Sometimes, Kind::Eventually],
@@ -370,7 +370,17 @@ pub fn run_explorer(sc: &ExplorerScenario) -> ExOutcome {
                     let exists = match p.kind {
                         Kind::Always => r.iter().any(|s| !g.bit(i, *s)),
                         Kind::Sometimes => r.iter().any(|s| g.bit(i, *s)),
-                        Kind::Eventually => continue,
+                        Kind::Eventually => {
+                            // exact on forest-shaped models, never a false alarm elsewhere
+                            let ex = rf.eventually_counterexample_exists(g, i);
+                            if rf.is_forest {
+                                ex
+                            } else if disc.contains(NAMES[i]) && !ex {
+                                false
+                            } else {
+                                continue;
+                            }
+                        }
                     };
                     if exists != disc.contains(NAMES[i]) {
                         local_v.push(Violation::new("C19", "ondemand-completion", format!("after run to completion {} {:?}: witness exists = {}, reported = {}", NAMES[i], p.kind, exists, !exists)));
